@@ -77,8 +77,22 @@ Definition waits_on_bg (sp : ro_spec) (st : ro_status) (w : wl) (br : option bre
 Definition c07_quiet_means_waiting_bg (c : case) : bool :=
   if quiet_obs c && negb (rs_deleting (rc_spec c)) then waits_on_bg (rc_spec c) (rc_status c) (rc_wl c) (rc_br c) else true.
 
+(* C03 for blue-green: a step enters its traffic-routing state from Init / Upgrade only behind pods reported ready *)
+Definition c03_bg_traffic_behind_ready (c : case) : bool :=
+  let o := rc_obs c in
+  match rp_sub (rc_status c), rp_sub (ob_status o) with
+  | Some u, Some v =>
+    let u1 := observed_sub (rc_wl c) u in
+    if rphase_eqb (rp_phase (rc_status c)) RpProgressing && negb (user_cause (rc_spec c) (rc_status c) (rc_wl c)) &&
+       (su_idx v =? su_idx u) &&
+       match su_state u, su_state v with StInit, StTraffic | StUpgrade, StTraffic => true | _, _ => false end
+    then br_ready_for (rc_spec c) u1 (rc_wl c) (synced_br u1 (rc_br c)) else true
+  | _, _ => true
+  end.
+
 Definition judge (c : case) : list verdict :=
   [ if corresponds_bg c then VOk else VMismatch;
+    clause "C03_bluegreen_traffic_step_only_behind_ready_pods" (negb (in_domain c) || ob_panic (rc_obs c) || c03_bg_traffic_behind_ready c);
     (* as for canary: a hand-edited BatchRelease (partition nil or outside its plan) read by recalculateCanaryStep is not an
        API state the property covers *)
     clause "C09_bluegreen_reconcile_does_not_panic"
